@@ -13,8 +13,30 @@ META = {
 
 def run(ctx):
     vlib.standard_proof_stage(ctx, extra_props=("C17_blake",))
+    th = "C04_blake224_eq_spec / C04_blake256_eq_spec / C04_blake384_eq_spec / C04_blake512_eq_spec"
     binary, log = vlib.cargo_build(profile="debug", bin_name="h_blake")
     if binary is None:
         raise vlib.CheckError("harness build failed: %s" % log[-2000:])
     s = vlib.correspondence(ctx, binary, "blake", ["--tier", ctx.tier], "blake/debug")
-    vlib.decide_absolute(ctx, s, explain="explain_blake", theorem="C04_blake256_eq_spec")
+    vlib.decide_absolute(ctx, s, explain="explain_blake", theorem=th)
+    # release profile; every SIMD back end forced through hook H1 (1..5 = SSE2, SSSE3, SSE4.1, AVX, AVX2:
+    # the host's run-time detection only ever selects one of them); this machine's SIMD target features
+    # enabled at compile time (cfg(target_feature) arms)
+    rel, log = vlib.cargo_build(profile="release", bin_name="h_blake")
+    if rel is None:
+        raise vlib.CheckError("harness build failed (release): %s" % log[-2000:])
+    streams = "reduced" if ctx.quick else "all"
+    s = vlib.correspondence(ctx, rel, "blake", ["--tier", ctx.tier, "--streams", streams], "blake/release/%s" % streams)
+    vlib.decide_absolute(ctx, s, explain="explain_blake", theorem=th)
+    for level, name in ((1, "sse2"), (2, "ssse3"), (3, "sse41"), (4, "avx"), (5, "avx2")):
+        s = vlib.correspondence(ctx, rel, "blake", ["--tier", "quick", "--streams", "reduced", "--level", level],
+                                "blake/release/reduced/forced-%s" % name)
+        vlib.decide_absolute(ctx, s, explain="explain_blake", theorem=th + " (back end: C03/C12/C13)")
+    native = tuple(vlib.native_rustflags())
+    if native:
+        nb, log = vlib.cargo_build(profile="release", bin_name="h_blake", rustflags=native)
+        if nb is None:
+            raise vlib.CheckError("harness build failed (release, %s): %s" % (" ".join(native), log[-2000:]))
+        s = vlib.correspondence(ctx, nb, "blake", ["--tier", "quick", "--streams", "reduced"],
+                                "blake/release/reduced/native-target-features")
+        vlib.decide_absolute(ctx, s, explain="explain_blake", theorem=th)
